@@ -13,18 +13,17 @@ Open Scope Z_scope.
    the symbol it is bound to, never the captured old one while the symbol is bound - exactly once with exactly the
    request's parameters, and the body is str(result); a handler that fails is still run exactly once and gives the
    400 answer; a path that was not registered (or whose handler was skipped: arity <> 1, call object) runs nothing.
-   Holds outside the known-finding class "the code fails with a Python KeyError" (KGFnWrapper swallows KeyError
-   raised by the CALL and then runs the captured function: C20_once_keyerror_refuted). The proof needs the regenerated
-   facts that KlongException and other classes are NOT swallowed (eq_refl below). *)
+   This is the FULL statement (no restriction on how the code fails). The proof needs the regenerated facts that the
+   wrapper swallows NO exception raised by the call of the current definition (three eq_refl below); the behaviour of
+   the code before fix 067b203 (KeyError swallowed) and of a wider except clause is kept as _refuted witnesses. *)
 Theorem C20_once_per_request : forall behav gets posts e q,
   NoDup (map fst gets) -> NoDup (map fst posts) ->
-  (forall b, behav b (q_params q) <> OFailKey) ->
   once_statement impl_rflags behav gets posts e q.
 Proof.
-  exact (fun behav gets posts e q Ng Np Hk =>
+  exact (fun behav gets posts e q Ng Np =>
     serve_once impl_rflags behav gets posts e q (eq_refl : rf_capture impl_rflags = true) Ng Np
-      (noswallow_impl impl_rflags behav (q_params q)
-         (eq_refl : rf_fb_klong impl_rflags = false) (eq_refl : rf_fb_other impl_rflags = false) Hk)).
+      (noswallow_strict impl_rflags behav (q_params q) (eq_refl : rf_fb_key impl_rflags = false)
+         (eq_refl : rf_fb_klong impl_rflags = false) (eq_refl : rf_fb_other impl_rflags = false))).
 Qed.
 Print Assumptions C20_once_per_request.
 
@@ -32,13 +31,12 @@ Print Assumptions C20_once_per_request.
    dictionary lookup of the spec: at most one entry per request, none for unknown paths, one for a failing handler. *)
 Theorem C20_once_log : forall behav gets posts evs e,
   NoDup (map fst gets) -> NoDup (map fst posts) ->
-  (forall b p, behav b p <> OFailKey) ->
   snd (run_events impl_rflags behav (register impl_rflags gets posts) e evs) = spec_log impl_rflags gets posts e evs.
 Proof.
-  exact (fun behav gets posts evs e Ng Np Hk =>
+  exact (fun behav gets posts evs e Ng Np =>
     log_once impl_rflags behav gets posts (eq_refl : rf_capture impl_rflags = true) Ng Np
-      (fun p => noswallow_impl impl_rflags behav p
-         (eq_refl : rf_fb_klong impl_rflags = false) (eq_refl : rf_fb_other impl_rflags = false) (fun b => Hk b p)) evs e).
+      (fun p => noswallow_strict impl_rflags behav p (eq_refl : rf_fb_key impl_rflags = false)
+         (eq_refl : rf_fb_klong impl_rflags = false) (eq_refl : rf_fb_other impl_rflags = false)) evs e).
 Qed.
 Print Assumptions C20_once_log.
 
@@ -46,9 +44,7 @@ Theorem C20_at_most_one_entry : forall gets posts e q, (length (spec_entry impl_
 Proof. exact (spec_entry_le1 impl_rflags). Qed.
 Print Assumptions C20_at_most_one_entry.
 
-(* the full statement (no restriction on the failure class) is false for the code as it is ... *)
-Definition C20_once_full_statement : Prop := forall behav gets posts e q,
-  NoDup (map fst gets) -> NoDup (map fst posts) -> once_statement impl_rflags behav gets posts e q.
+(* before fix 067b203 the wrapper swallowed a KeyError raised by the call: the statement was false ... *)
 Definition keyfb : rflags := mkRF true true true true true false false.
 Theorem C20_once_keyerror_refuted :
   let h := HFn 1 (Some [104]) 1%nat in
